@@ -194,6 +194,8 @@ AnnotationE2E ==
   (l <= Len(Table) /\ ~Row.panic) =>
      /\ ((Row.hasbare /\ Row.out # AnnotNF(Row.in)) => Report(l, "// spelling not collapsed"))
      /\ ((~Row.alterr /\ Row.alt # AnnotNF(Row.in)) => Report(l, "/* */ spelling not collapsed"))
+     \* a text that has a non-empty normal form is an annotation in either spelling
+     /\ ((Row.alterr /\ AnnotNF(Row.in) # << >> /\ (Row.hasbare => ~Row.err)) => Report(l, "/* */ spelling rejected"))
 
 -----------------------------------------------------------------------------
 Judge ==
